@@ -4,8 +4,8 @@ HARNESSES = [
     H("c14_prev_n4", 6, note="previous_transition(t) = largest recorded T_i < t, None iff none (dummy row skipped)"),
     H("c14_next_n4_witness", 6, expect="witness"),
     H("c14_prev_n4_witness", 6, expect="witness"),
-    H("c14_next_n8", 10, tier="thorough", timeout=3000),
-    H("c14_prev_n8", 10, tier="thorough", timeout=3000),
+    H("c14_next_n8", 10, tier="deep", timeout=3000),
+    H("c14_prev_n8", 10, tier="deep", timeout=3000),
 ]
 ASSUMPTIONS = [
     "tables satisfy the parser's representation invariant (row 0 at Timestamp::MIN, strictly increasing instants, type indices in range)",
